@@ -105,3 +105,37 @@ CLAIMED['C09'] = {
     'note': PROOF_NOTE + 'Accuracy on sinusoids, nht/quad branches and amplitude_normalise are bounded (calibrated tolerances).',
 }
 PENDING_REASON = {}
+
+
+# ---- revisions after the second half of the build (units added since the entries above were written)
+def _rev(k, **kw):
+    CLAIMED[k].update(kw)
+
+
+_rev('C12',
+     technique='deductive: loop-cut VC generation from the real source of get_cycle_vector (single column: step-form postcondition; symbolic number of columns: both loops cut, frame condition over the loop-entry state, np.where taken as a function of the column), discharged by z3/cvc5; bounded stand-in: native contract over every phase sequence <= 6/8 over 5 values, pairs of columns, long synthetic phases',
+     text='All VCs (loop invariant establish/preserve, safety, frame, postcondition from the property statement) generated from the current source of get_cycle_vector are discharged for every signal length, every number of columns, every phase_step and every iteration; a refused obligation or a native contract failure is reported as a violation.',
+     note=PROOF_NOTE + 'Phase in [0,2pi] (the re-wrapping branch is covered by C19 frame + bounded); return_good=False / no mask here, the good-cycle and mask paths (single and several columns) are under C13.')
+_rev('C13',
+     technique=CLAIMED['C13']['technique'].replace('; bounded st', '; the same for a symbolic number of columns (both loops cut, ACCEPT / ACC per column in skolemised form); Cycles.__init__ with its collaborators as contract stubs (the function handed to compute_cycle_metric is the criteria with the container\'s own edge tolerance); bounded st'),
+     text='is_good is proved to compute exactly the documented criteria; get_cycle_vector (good / mask paths, one and several columns, ensure_2d and ensure_equal_dims inlined) is proved to label a wrap-delimited segment iff criteria and mask hold, with the order-preserving renumbering, for all lengths / thresholds / edges; the container is proved to compute its quality flag with the criteria at its own edge tolerance, from its own phase, in cycle mode. The route from compute_cycle_metric to the stored vector is bounded.',
+     note=PROOF_NOTE + 'Phase in [0,2pi]; mask is a vector.')
+_rev('C14',
+     technique='deductive: loop invariants + postconditions of get_cycle_stat_from_samples (uninterpreted reducing function, np.where as a function of the label), project_cycles_to_samples, bin_by_phase (digitize / mask-gather / mean with IEEE semantics: mean per bin over exactly its samples, empty bins missing) and phase_align in cycle mode (iterator and interp1d by contract: each column is the interpolant of exactly its cycle\'s samples on the grid; linear-exactness lemma); bounded stand-in: all label vectors <= 6/8 x reducers x output modes, phase_align / bin_by_phase grids',
+     text='The per-cycle statistic is proved to be the supplied (arbitrary) function applied to exactly the samples carrying each label; the projection to be constant within cycles and NaN elsewhere; every phase bin with samples to hold their mean and empty bins to be missing; every phase-aligned column to be the extrapolating interpolant of exactly that cycle\'s samples evaluated on the phase grid, which is exact for quantities linear in phase - for all lengths and labellings. The interpolation-error clause, weighted / multi-column binning and the get_cycle_stat wrapper are bounded.',
+     note=PROOF_NOTE + 'scipy interp1d and the cycle iterator are contract stubs; mean / sum with IEEE NaN semantics in the bin_by_phase unit.')
+_rev('C16',
+     text='Each index map / projection is verified against its set-theoretic contract for all vector lengths and all indices (loops by invariants; composite maps and projections call their callees through the contracts discharged in the callees\' own units); the round-trip statements are lemmas over those contracts. map_chain_to_samples (concatenation of variable-length pieces) is covered by the bounded stand-in only.')
+_rev('C19',
+     technique=CLAIMED['C19']['technique'].replace('spectra / cycle-detection / second-layer routines', 'sift, get_next_imf, mask / ensemble sifts, envelope / extrema routines, frequency_transform, amplitude_normalise, phase_align, bin_by_phase, spectra, cycle-detection (wrapped and unwrapped phase) and second-layer routines (harnesses of their own properties with read-only arguments)'),
+     text='The input validators are proved to accept exactly the documented single-signal layouts (returning the same elements) and to raise for every other extent combination (ensure_equal_dims for two and three arrays); writes into argument buffers / option dicts - item, slice and augmented assignments - are proved absent for the routines listed in the evidence. Layout-equivalence of complete numerical results and determinism are bounded.')
+_rev('C09',
+     technique=CLAIMED['C09']['technique'].replace('scale lemmas over', 'the nht and quad branches (analytic signal from the normalised IMFs / the quadrature transform, amplitude of column j = upper envelope of column j), amplitude_normalise (column c = its own normalisation iterate with its own iteration budget; both loops cut), scale lemmas over'),
+     text=CLAIMED['C09']['text'].replace('The accuracy clause', 'amplitude_normalise is proved to normalise every column on its own. The accuracy clause'),
+     note=PROOF_NOTE + 'Accuracy on sinusoids and scale invariance of amplitude_normalise are bounded (calibrated tolerances); interp_envelope, hilbert, quadrature_transform by contract.')
+_rev('C06',
+     text=CLAIMED['C06']['text'].replace('For all seven variants and both lower stages,', 'For all seven variants and the lower stages (get_next_imf -> interp_envelope and the stopping rules, interp_envelope -> get_padded_extrema, get_padded_extrema -> _find_extrema and np.pad on every padding round),'))
+_rev('C03',
+     text=CLAIMED['C03']['text'].replace('since the extraction is a function of its input the capped run is a prefix of the uncapped one.', 'the sift is proved never to extract again after an extraction that cleared the continue flag; since the extraction is a function of its input the capped run is therefore a prefix of the uncapped one.').replace('ensemble and second-layer results have the documented shapes.', 'ensemble results average the components every member has (members of different sizes) within the cap; second-layer results have the documented shapes.'))
+_rev('C01',
+     technique=CLAIMED['C01']['technique'].replace('with get_next_imf replaced by its C04 contract', 'with get_next_imf replaced by its C04 contract, which is discharged in this check as well (the get_next_imf units are re-run)'))
